@@ -928,6 +928,7 @@ pub fn run(ctx: &mut Ctx) {
         if super::c15_bin::replay(ctx, &case) { return; }
         if super::c15_codec::replay(ctx, &case) { return; }
         if super::c15_rec::replay(ctx, &case) { return; }
+        if super::c15_hdrtxt::replay(ctx, &case) { return; }
         if case.first().map(|s| s.as_str()) == Some("corr") {
             corr::replay(ctx, &case[1..]);
             return;
@@ -942,6 +943,7 @@ pub fn run(ctx: &mut Ctx) {
         super::c15_bin::run(ctx);
         super::c15_codec::run(ctx);
         super::c15_rec::run(ctx);
+        super::c15_hdrtxt::run(ctx);
         let w = World::new(&format!("{dir}/parent"));
         ctx.sample(|| seeds::describe(&w.s));
         if std::env::var("NVH_C15_SKIP_ORACLE").is_ok() { vec![] } else { plan(ctx, &w) }
